@@ -78,7 +78,7 @@ fn build_case<K: TestKey>(p: &Params, id: u64) -> Case<K> {
         9 => ("transactions", 3, true),
         7 if p.mode == "kill" => ("cross-device-shards", 1000, true),
         7 => ("rollover", 2, true),
-        // one range removal over ~140 keys (reached by the thorough tier only: ~1500 kill points)
+        // one range removal over ~300 keys (more than one byte counts, more than any batch size)
         8 if p.mode == "kill" => ("wide-range", *rng.pick(&[50u64, 1000]), true),
         8 => ("checkpoint-shared", 3, true),
         0 => ("rollover", *rng.pick(&[1u64, 2, 3]), true),
@@ -136,7 +136,7 @@ fn build_case<K: TestKey>(p: &Params, id: u64) -> Case<K> {
             mr.step(op);
         }
     } else if class == "wide-range" {
-        let n = 132 + rng.usize(20);
+        let n = 290 + rng.usize(60);
         for i in 0..n {
             ops.push(Op::Put { key: K::bulk(i, 5), content: Content::new(40 + (i % 2) as u32, 9), chunks: vec![] });
         }
@@ -1840,6 +1840,25 @@ fn run_all<K: TestKey>(p: &Params, ids: &[u64], threads: usize, deadline: std::t
                                 ks.push(*rng.pick(&mkdirs));
                             }
                         }
+                        ks.sort();
+                        ks.dedup();
+                        ks
+                    }
+                    None if cases[ci].class == "wide-range" => {
+                        // hundreds of puts lead up to one multi-key removal: every call inside the
+                        // removal (and the one after it), plus a seeded sample of the others
+                        let mut rng = Rng::derive(p.seed ^ 0x8A1, cases[ci].id);
+                        let mut ks: Vec<u64> = Vec::new();
+                        for (i, op) in cases[ci].ops.iter().enumerate() {
+                            if let (Op::RemoveRange { .. }, Some(a)) = (op, t.ack.ops.get(&i)) {
+                                let end = a.end.as_ref().map(|e| e.0).unwrap_or(a.begin_c);
+                                ks.extend((a.begin_c.max(0) as u64 + 1)..=(end.max(0) as u64 + 1));
+                            }
+                        }
+                        for _ in 0..(if p.thorough { 400 } else { 40 }) {
+                            ks.push(rng.range(1, t.total_calls.max(2)));
+                        }
+                        ks.retain(|k| *k >= 1 && *k <= t.total_calls);
                         ks.sort();
                         ks.dedup();
                         ks
